@@ -112,7 +112,7 @@ theorem edit_constant_copy_made_inside_is_constant (s : St) (i : IId) (x : Inst)
 /-! ## Outside `edit_constant` a constant parameter keeps its object -/
 
 /-- **C14 (constant).**  No statement other than an `edit_constant` block — instance assignment of a
-new or of the identical object, `update`, a class-level assignment on the declaring class or on a
+new or of the identical object or of an asynchronous reference, `update`, a class-level assignment on the declaring class or on a
 subclass, a constructor call, a flag edit, `obj.param[n]` — changes the object an existing instance
 holds under a parameter whose governing Parameter object is constant. -/
 theorem constant_object_changes_only_inside_edit_constant (s : St) (op : Op) (hwf : WF s)
@@ -130,6 +130,17 @@ theorem constant_object_changes_only_inside_edit_constant (s : St) (op : Op) (hw
         show (s.insts ++ _)[j]? = s.insts[j]?
         exact List.getElem?_append_left hj
   | instSet i n v => simp only [step]; exact (instSetCore_gov hwf i n v).2.2 j m hc
+  | instSetAsync i n v =>
+    simp only [step]
+    split
+    · rfl
+    · split
+      · rfl
+      · split
+        · rfl
+        · split
+          · exact (instSetCore_gov hwf i n v).2.2 j m hc
+          · rfl
   | instSetSame i n =>
     simp only [step]
     split
@@ -277,7 +288,7 @@ theorem readonly_keyword_refused (s : St) (hwf : WF s) (c : CId) (kw : List (Nam
 
 /-- **C14 (`name`).**  Every class created by `declare` carries its own `name` Parameter object, and it
 is constant and not read-only. -/
-theorem declared_class_name_is_constant (npool : Nat) (s : St) (d : List CId × List (Name × Bool × Bool × Obj)) :
+theorem declared_class_name_is_constant (npool : Nat) (s : St) (d : List CId × List (Name × Bool × Bool × Obj × Bool)) :
     ∃ k p, (declare npool s d).classes[s.classes.length]? = some k ∧ aget k.dict "name" = some p ∧
       (declare npool s d).heap[p]? = some { constant := true, readonly := false, default := npool + s.classes.length } := by
   unfold declare
@@ -398,6 +409,18 @@ theorem protection_survives_step (s : St) (hwf : WF s) (hh : Hier s) (op : Op)
   | instSet i n v =>
     refine ⟨fun j m _ => ?_, hcls (by intro _ _ _ h; cases h)⟩
     simp only [step]; exact (instSetCore_gov hwf i n v).2.1 j m
+  | instSetAsync i n v =>
+    refine ⟨fun j m _ => ?_, hcls (by intro _ _ _ h; cases h)⟩
+    simp only [step]
+    split
+    · rfl
+    · split
+      · rfl
+      · split
+        · rfl
+        · split
+          · exact (instSetCore_gov hwf i n v).2.1 j m
+          · rfl
   | instSetSame i n =>
     refine ⟨fun j m _ => ?_, hcls (by intro _ _ _ h; cases h)⟩
     simp only [step]
@@ -478,10 +501,17 @@ example : (step (step witnessState (.block 0 [.instSet 0 "c" 5, .raise])).1 (.in
   decide
 example : noFlagL [.block 0 [.instSet 0 "c" 5, .block 0 [.instSet 0 "c" 6, .raise], .instSet 0 "c" 7]] = true := by
   decide
+/-- an asynchronous reference assigned to a constant `allow_refs` parameter is refused like any
+other assignment (and accepted inside `edit_constant`) -/
+example :
+    let s : St := { witnessState with heap := [{ constant := true, readonly := false, default := 0, allowRefs := true },
+                                               { constant := true, readonly := false, default := 1 }] }
+    (step s (.instSetAsync 0 "c" 5)).2 = .typeError ∧ held (step s (.instSetAsync 0 "c" 5)).1 0 "c" = some 0 ∧
+    held (step s (.block 0 [.instSetAsync 0 "c" 5])).1 0 "c" = some 5 := by decide
 /-- the initial state built by `declare` -/
-example : clsFlags (initState 4 [([0], [("c", true, false, 0), ("r", false, true, 2)]), ([1, 0], [])]) 1 "r"
+example : clsFlags (initState 4 [([0], [("c", true, false, 0, false), ("r", false, true, 2, false)]), ([1, 0], [])]) 1 "r"
     = some (true, true) := by decide
-example : clsFlags (initState 4 [([0], [("c", true, false, 0)]), ([1, 0], [])]) 1 "name" = some (true, false) := by
+example : clsFlags (initState 4 [([0], [("c", true, false, 0, false)]), ([1, 0], [])]) 1 "name" = some (true, false) := by
   decide
 
 end ParamVerif.Store.Const
